@@ -218,6 +218,10 @@ func (intp *Interpreter) executeOne(obj Object, execProc bool) error {
 		a := intp.procStart[len(intp.procStart)-1]
 		intp.procStart = intp.procStart[:len(intp.procStart)-1]
 		b := len(intp.Stack)
+		if b < a {
+			// the objects collected for this procedure were removed after an error
+			return intp.e(eSyntaxerror, "unmatched '}'")
+		}
 		proc := make(Procedure, b-a)
 		copy(proc, intp.Stack[a:])
 		intp.Stack = append(intp.Stack[:a], proc)
